@@ -308,6 +308,15 @@ def run(rep: Report) -> None:
                     f"reading the enumerations raises {e.exc}: {e.msg}", key="enum-fresh|raise")
     rep.floor("network enumerations read before/after initialisation", n_enum, 5)
 
+    # ---------- the next states a compilation uses are those of the most recent step: stepping the
+    # same objects again (other options before) leaves exactly the results of a fresh step
+    from . import c12 as _c12
+    from .common import require_no_errors as _rne, wire_results as _wr
+
+    hcks = _wr(rep, "flags", impls=("casadi",))
+    if _rne(rep, hcks):
+        _c12.history_independence(rep, hcks)
+
     # ---------- (c'') initialising again creates new variables (so that next states computed
     # from the old ones mention symbols that are no longer arguments, which CasADi rejects)
     from .common import require_no_errors, wire_results
